@@ -6,6 +6,9 @@
      J <hex of a JSON text>        -> N | {cfg}                       (serde_json::from_str::<LintGroupConfig>)
      P <cfg>                       -> hex of serde_json::to_string
      H <cfg>                       -> the Hasher::write calls, hex chunks separated by '.'
+     W <hex of a JSON text>        -> N | B | {cfg}                   (from_str::<Value>, then from_value::<LintGroupConfig>)
+     V <hex of a settings text>    -> N | O | B | {cfg}               (from_str::<Value>, then Config::from_lsp_config(..).lint_config;
+                                                                       O = another key from_lsp_config reads is present)
      T                             -> {curated cfg} | iter_keys of new_curated, comma separated
      U                             -> the same, from the EXECUTION of the generated statements (C11Curated.new_curated_model)
      K adds # docs # steps         one long-lived group, its chunk cache warm: a history of config ops and lint calls
@@ -35,6 +38,12 @@ let string_of_cfg c =
   "{" ^ String.concat "," (List.map (fun (k, v) -> hex_of_key k ^ "=" ^ str_of_val v) c) ^ "}"
 let nat s = nat_of_int (int_of_string s)
 let bool_of s = s = "1"
+
+(* the f64 range check of a grammatical JSON number literal (serde_json: NumberOutOfRange when the correctly rounded
+   value is infinite): the model's parameter num_fin; strtod rounds correctly too *)
+let num_fin (lit : n list) : bool =
+  let s = String.concat "" (List.map (fun b -> String.make 1 (Char.chr (int_of_n b))) lit) in
+  match float_of_string_opt s with Some f -> Float.is_finite f | None -> false
 
 let cop_of (w : string list) : cop = match w with
   | ["s"; i; k; b] -> CSet (nat i, key_of_hex k, bool_of b)
@@ -94,6 +103,15 @@ let () =
           (match parse_cfg (key_of_hex body) with
            | None -> print_endline "N"
            | Some c -> print_endline (string_of_cfg c))
+      | 'W' ->
+          (match parse_json num_fin (key_of_hex body) with
+           | None -> print_endline "N"
+           | Some v -> (match from_value v with None -> print_endline "B" | Some c -> print_endline (string_of_cfg c)))
+      | 'V' ->
+          (match parse_json num_fin (key_of_hex body) with
+           | None -> print_endline "N"
+           | Some v -> (match lsp_lint_config lsp_other_keys v with
+                        | LBail -> print_endline "B" | LOther -> print_endline "O" | LCfg c -> print_endline (string_of_cfg c)))
       | 'P' -> print_endline (hex_of_key (print_cfg (cfg_of_string body)))
       | 'H' -> print_endline (String.concat "." (List.map hex_of_key (hash_calls (cfg_of_string body))))
       | 'T' -> print_endline (string_of_cfg curated_cfg ^ " | " ^ String.concat "," (List.map hex_of_key curated_names))
